@@ -111,7 +111,7 @@ impl Prop for C10 {
         vec!["release", "verif-debug"]
     }
     fn rule(&self) -> String {
-        "x = p/q (|p|<=40,q<=8; thorough |p|<=60,q<=12) spelled `p / q`, `(p / q)` or as an integer; exact halves and boundary +- 10^-k (k<=7) as decimals; fine boundaries (integer and half +- 10^-k for k in 8..25 at magnitudes 0, 2, 3, 1e15, 2^53, 2^53+1, 2^63-1, 2^64, both signs); x {floor, ceil, round, round(x,n) for n in -6..6}; arguments carrying a unit (km, m/s, decades) with the unit required on the result; wrong arities 0,2,3 (floor/ceil) and 0,3 (round), also with a call among the arguments; nested calls f(g(x)), f(g(x) / 3), round(g(x) / 3, 2), round(x, f(d)) and calls inside a larger expression over 6 values x 3 x 3 functions. Both build profiles (release; release+debug-assertions+overflow-checks). Non-trivial = the argument is not an integer or digits != 0; distinct = distinct query strings".into()
+        "x = p/q (|p|<=40,q<=8; thorough |p|<=60,q<=12) spelled `p / q`, `(p / q)` or as an integer; exact halves and boundary +- 10^-k (k<=7) as decimals; fine boundaries (integer and half +- 10^-k for k in 8..25 at magnitudes 0, 2, 3, 1e15, 2^53, 2^53+1, 2^63-1, 2^64, both signs); x {floor, ceil, round, round(x,n) for n in -6..6}; two-step histories round(x,n1) then round(y,n2) on one thread for every ordered pair of 20 digit counts up to +-39 (across the u64 and u128 ranges of 10^n) over three 30-50-digit values, each step and their sum judged; arguments carrying a unit (km, m/s, decades) with the unit required on the result; wrong arities 0,2,3 (floor/ceil) and 0,3 (round), also with a call among the arguments; nested calls f(g(x)), f(g(x) / 3), round(g(x) / 3, 2), round(x, f(d)) and calls inside a larger expression over 6 values x 3 x 3 functions. Both build profiles (release; release+debug-assertions+overflow-checks). Non-trivial = the argument is not an integer or digits != 0; distinct = distinct query strings".into()
     }
     fn assumptions(&self) -> Vec<String> {
         vec!["a non-integer digits argument is not judged".into()]
@@ -123,6 +123,20 @@ impl Prop for C10 {
             }
             for n in -6..=6i64 {
                 sink(Case::with("digits", format!("round({text}, {n})"), serde_json::json!({"f": "round", "x": text, "n": n})));
+            }
+        }
+        // digits beyond the machine-word range of 10^n (10^19 < 2^64 < 10^20, 10^38 < 2^128 < 10^39),
+        // as two-step histories on one thread: every ordered pair of digit counts (so n after -n, n
+        // after n, a small one after a wide one ...), each step judged on its own, then both in one
+        // expression
+        let wide: [i64; 20] = [7, -7, 9, -9, 10, -10, 18, -18, 19, -19, 20, -20, 21, -21, 25, -25, 38, -38, 39, -39];
+        let xs = ["123456789012345678901234567890.123456789012345678901234567895", "-0.1234567890123456789012345678901234567890123456789", "5000000000000000000000000.5"];
+        for (i, x) in xs.iter().enumerate() {
+            let y = xs[(i + 1) % xs.len()];
+            for n1 in wide {
+                for n2 in wide {
+                    sink(Case::with("digits-seq", format!("round({x}, {n1}) ; round({y}, {n2})"), serde_json::json!({"x": x, "n1": n1, "y": y, "n2": n2})));
+                }
             }
         }
         // unit carried through
@@ -176,6 +190,21 @@ impl Prop for C10 {
     }
     fn check(&self, env: &mut Env, case: &Case) -> Verdict {
         let q = &case.key;
+        if case.fam == "digits-seq" {
+            let (xt, yt) = (case.data["x"].as_str().unwrap(), case.data["y"].as_str().unwrap());
+            let (n1, n2) = (case.data["n1"].as_i64().unwrap(), case.data["n2"].as_i64().unwrap());
+            let w1 = ref_round_digits(&crate::refcalc::ref_decimal(xt).unwrap(), n1);
+            let w2 = ref_round_digits(&crate::refcalc::ref_decimal(yt).unwrap(), n2);
+            let steps = [(format!("round({xt}, {n1})"), w1.clone()), (format!("round({yt}, {n2})"), w2.clone()), (format!("round({xt}, {n1}) + round({yt}, {n2})"), &w1 + &w2)];
+            for (k, (sq, want)) in steps.iter().enumerate() {
+                match obs::eval_one(env.db(), sq) {
+                    Ok(Res::Ok { value, unit, .. }) if unit.is_empty() && &value == want => {}
+                    Ok(r) => return fw::fail(format!("digits-seq:step{k}:{}", if n1.signum() == n2.signum() { "same-sign" } else { "other-sign" }), format!("{q}: step {k} `{sq}` = {}, expected {want}", r.short())),
+                    Err(why) => return fw::fail("results:digits-seq", format!("{sq}: {why}")),
+                }
+            }
+            return fw::pass(true, fw::hash_str(&format!("{w1} {w2}")));
+        }
         let got = match obs::eval_one(env.db(), q) {
             Ok(r) => r,
             Err(why) => return fw::fail(format!("results:{}", case.fam), format!("{q}: {why}")),
